@@ -406,6 +406,71 @@ def install(eng):
     def _join(eng, st, args, kw, node):
         return one(st, z3.String(uid('join')))
 
+    # ------------------------------------------------ abstract string operations (trusted; axioms stated here)
+    SPLIT_LEN = z3.Function('split_comma_len', z3.StringSort(), z3.IntSort())
+    SPLIT_PART = z3.Function('split_comma_part', z3.StringSort(), z3.IntSort(), z3.StringSort())
+    PY_STRIP = z3.Function('py_strip', z3.StringSort(), z3.StringSort())
+    PY_INT = z3.Function('py_int', z3.StringSort(), z3.IntSort())
+    PY_INT_OK = z3.Function('py_int_ok', z3.StringSort(), z3.BoolSort())
+
+    def split_view(eng, st, s):
+        t = to_str_term(s)
+        n = SPLIT_LEN(t)
+        comma = z3.StringVal(',')
+        st.assume(n >= 1)
+        st.assume(z3.Contains(t, comma) == (n >= 2))
+        st.assume(z3.Implies(n == 1, SPLIT_PART(t, 0) == t))
+        st.assume(z3.Implies(n == 2, t == z3.Concat(SPLIT_PART(t, 0), comma, SPLIT_PART(t, 1))))
+        st.assume(z3.Implies(n == 3, t == z3.Concat(SPLIT_PART(t, 0), comma, SPLIT_PART(t, 1), comma, SPLIT_PART(t, 2))))
+        i = z3.Int(uid('sp'))
+        st.assume(z3.ForAll([i], z3.Implies(z3.And(i >= 0, i < n), z3.Not(z3.Contains(SPLIT_PART(t, i), comma))), patterns=[SPLIT_PART(t, i)]))
+        eng.trusted_used.add("str.split(','), str.strip(), int(str): abstract functions (split_comma_part/len, py_strip, py_int, py_int_ok) "
+                             "with the axioms in pyvc/builtins.py; the real parsing is covered by the bounded stand-in")
+        return View(n, lambda k: SPLIT_PART(t, to_int(k)), Str, None, 'list')
+
+    @method('split')
+    def _split(eng, st, args, kw, node):
+        s = args[0]
+        if len(args) == 2 and args[1] == ',' and is_strlike(s):
+            if isinstance(s, str):
+                return one(st, conc_seq_view(s.split(','), Str, 'list'))
+            return one(st, split_view(eng, st, s))
+        raise Unsupported('str.split with this separator')
+
+    @method('strip')
+    def _strip(eng, st, args, kw, node):
+        s = args[0]
+        if isinstance(s, str) and len(args) == 1:
+            return one(st, s.strip())
+        if len(args) == 1 and is_strlike(s):
+            return one(st, PY_STRIP(to_str_term(s)))
+        raise Unsupported('strip with arguments')
+
+    @reg('str_to_int')
+    def _str_to_int(eng, st, args, kw, node):
+        s = args[0]
+        if isinstance(s, str):
+            try:
+                return one(st, int(s))
+            except ValueError:
+                eng.throw(st, 'ValueError', node)
+                return []
+        t = to_str_term(s)
+        st = eng.fork_exc(st, PY_INT_OK(t), 'ValueError', node)
+        if st.dead:
+            return []
+        return one(st, PY_INT(t))
+
+    for _nm, _f in (('split_len', lambda a: SPLIT_LEN(to_str_term(a[0]))), ('split_part', lambda a: SPLIT_PART(to_str_term(a[0]), to_int(a[1]))),
+                    ('py_strip', lambda a: PY_STRIP(to_str_term(a[0]))), ('py_int', lambda a: PY_INT(to_str_term(a[0]))),
+                    ('py_int_ok', lambda a: PY_INT_OK(to_str_term(a[0]))), ('contains', lambda a: z3.Contains(to_str_term(a[0]), to_str_term(a[1])))):
+        B[_nm] = Fn(lambda eng, st, args, kw, node, _f=_f: [(st, _f(args))], _nm)
+
+    @reg('cls_is')
+    def _cls_is(eng, st, args, kw, node):
+        v = args[0]
+        return one(st, isinstance(v, (Ref, Rec)) and v.cls == args[1])
+
     @reg('functools.partial')
     def _partial(eng, st, args, kw, node):
         return one(st, Opaque())
